@@ -13,7 +13,8 @@ Binding: replay on the REAL code (harness/cmd/repl), against an httptest remote 
           clock ticks age the segment files (Chtimes), the purge step is the purge case of run()
   e2e     a selection of the same histories through the real run() loop (InitializeQueue / EnqueueData / CloseAll):
           requests, their order, and that a timer-triggered retry never starts before the armed wait has elapsed
-  periodic  histories in which the 10 s in-scan ticker fires (the remote holds one request for 10.5 s)
+  periodic  histories in which the 10 s in-scan ticker fires (the remote holds one request for 10.5 s); after the in-scan
+            Advance the repaired code returns (0,true) and continues with a fresh scanner (finding F38, fixed in /repo)
 Compared exactly: the batches each call posts (bytes), what remains in the queue (drained from a copy of the directory),
 wait/shouldRetry.  rq.failedWrites is DRIFT.  The driver also evaluates the removal/order contract on its own observations.
 """
@@ -122,7 +123,8 @@ def run(ctx):
         tlc_job('gen', 'Replication', f'Replication.Gen_{tier}.cfg', timeout=tmo, dump=True),
         tlc_job('age', 'Replication', f'Replication.Gen_age_{tier}.cfg', timeout=tmo, dump=True),
         tlc_job('per', 'Replication', 'Replication.Gen_periodic.cfg', timeout=tmo, dump=True),
-        tlc_job('lead', 'Replication', 'Replication.MC_periodic.cfg', timeout=tmo),
+        tlc_job('mcper', 'Replication', 'Replication.MC_periodic.cfg', timeout=tmo),      # repaired periodic advance
+        tlc_job('lead', 'Replication', 'Replication.Lead_periodic.cfg', timeout=tmo),     # as found (F38): must violate
     ]
     if not quick:
         threads.append(tlc_job('sim', 'Replication', 'Replication.Sim.cfg', timeout=tmo, simulate={'num': 500}, depth=120))
@@ -130,7 +132,7 @@ def run(ctx):
         t.join()
     if errs:
         raise vlib.Inconclusive('; '.join(errs))
-    for name in ('mc', 'wtab', 'gen', 'age', 'per') + (() if quick else ('sim',)):
+    for name in ('mc', 'mcper', 'wtab', 'gen', 'age', 'per') + (() if quick else ('sim',)):
         r = jobs[name]
         if r.timed_out:
             raise vlib.Inconclusive(f'TLC timed out ({name})')
@@ -225,13 +227,16 @@ def run(ctx):
     ctx.absorb(*slow['per'], sample=0)
     ctx.absorb(*slow['e2e'], sample=0)
 
-    # ---- 5. the periodic lead: TLC says the design loses a batch; it counts only if the real code does (DESIGN 10)
+    # ---- 5. periodic advance (finding F38, repaired in /repo): the as-found model (Lead_periodic, PeriodicFix=FALSE) must
+    # still lose a batch in TLC - that keeps the modelling of the defect honest - while the repaired model (MC_periodic)
+    # passed above and the real code must conform to it in the periodic histories replayed above.
     lead = jobs['lead']
     per_div = [d for d in ctx.divergences if PATTERN_PERIODIC in (d['result'].get('patterns') or [])]
-    ctx.extra_cov['periodic_lead_tlc'] = lead.violated or ('clean' if lead.ok else 'not finished')
-    ctx.extra_cov['periodic_lead_reproduced_on_code'] = len(per_div)
-    if lead.violated and not per_div:
-        ctx.infra.append(f'TLC lead {lead.violated} (periodic advance) did not reproduce on the real code: spec and code disagree')
+    ctx.extra_cov['periodic_asfound_model_tlc'] = lead.violated or ('clean' if lead.ok else 'not finished')
+    ctx.extra_cov['periodic_divergences_on_code'] = len(per_div)
+    if lead.timed_out or lead.violated != 'OnlyLegalRemovals':
+        ctx.infra.append(f'as-found periodic-advance model: expected OnlyLegalRemovals to be violated, got {lead.violated} '
+                         f'(ok={lead.ok}): the lead config no longer models finding F38')
 
     ctx.extra_cov.update({
         'writer_table_rows': len(wcases),
